@@ -15,6 +15,9 @@ struct Seed {
     packet: Vec<u8>,
     /// V9: offsets at which a cut yields a shorter *valid* packet (flowset boundaries) — excluded by the property
     boundaries: Vec<usize>,
+    /// Some((head, tail)): only the cut points in the first `head` and the last `tail` bytes are explored (packets
+    /// longer than a datagram, whose every cut costs a 64 KiB parse)
+    only_cuts: Option<(usize, usize)>,
 }
 
 fn v9_boundaries(p: &[u8]) -> Vec<usize> {
@@ -36,8 +39,13 @@ fn seeds(thorough: bool) -> Vec<Seed> {
             counts.push((65535 - 24) / rec_size(ver));
         }
         for n in counts {
-            v.push(Seed { name: format!("v{}x{}", ver, n), needs: vec![], packet: fixed_distinct(ver, n, 3), boundaries: vec![] });
+            v.push(Seed { name: format!("v{}x{}", ver, n), needs: vec![], packet: fixed_distinct(ver, n, 3), boundaries: vec![], only_cuts: None });
         }
+    }
+    // V5 / V7 packets LONGER than a datagram (parse_bytes takes any slice): the counts at which count x record size
+    // passes 65 535, cut in the header and in the last two records
+    for (ver, n) in [(5u16, 1365usize), (5, 1366), (7, 1260), (7, 1261), (7, 1262)] {
+        v.push(Seed { name: format!("v{}x{}-beyond-a-datagram", ver, n), needs: vec![], packet: fixed_distinct(ver, n, 5), boundaries: vec![], only_cuts: Some((30, 120)) });
     }
     // template ids 400.. : disjoint from the ids of the context packets, so that every seed is valid in every context
     // V9: template packets, data packets (templates delivered before), mixed packets
@@ -54,15 +62,15 @@ fn seeds(thorough: bool) -> Vec<Seed> {
             let tp = v9_packet(&V9Pkt::new(vec![t.clone()]));
             let dp = v9_packet(&V9Pkt::new(vec![d.clone()]));
             let td = v9_packet(&V9Pkt::new(vec![t, d]));
-            v.push(Seed { name: format!("v9-T-{}-{}", k, j), needs: vec![], boundaries: v9_boundaries(&tp), packet: tp.clone() });
-            v.push(Seed { name: format!("v9-D-{}-{}", k, j), needs: tp, boundaries: v9_boundaries(&dp), packet: dp });
-            v.push(Seed { name: format!("v9-TD-{}-{}", k, j), needs: vec![], boundaries: v9_boundaries(&td), packet: td });
+            v.push(Seed { name: format!("v9-T-{}-{}", k, j), needs: vec![], boundaries: v9_boundaries(&tp), packet: tp.clone(), only_cuts: None });
+            v.push(Seed { name: format!("v9-D-{}-{}", k, j), needs: tp, boundaries: v9_boundaries(&dp), packet: dp, only_cuts: None });
+            v.push(Seed { name: format!("v9-TD-{}-{}", k, j), needs: vec![], boundaries: v9_boundaries(&td), packet: td, only_cuts: None });
         }
     }
     {
         let o = V9OptTpl { id: 402, scope: vec![fs(1, 4), fs(2, 2)], opts: vec![fs(34, 2), fs(36, 2)] };
         let p = v9_packet(&V9Pkt::new(vec![V9Set::OptTpl(vec![o.clone(), V9OptTpl { id: 403, ..o.clone() }], 0), V9Set::Data(402, (0..10).map(|j| fill(4, j)).collect()), V9Set::Data(403, (0..12).map(|j| fill(5, j)).collect())]));
-        v.push(Seed { name: "v9-options".into(), needs: vec![], boundaries: v9_boundaries(&p), packet: p });
+        v.push(Seed { name: "v9-options".into(), needs: vec![], boundaries: v9_boundaries(&p), packet: p, only_cuts: None });
         // two template records in one flowset, then data for each (one padded by 3)
         let fa = vec![fs(8, 4), fs(7, 2), fs(4, 1)];
         let fb = vec![fs(27, 16), fs(96, 5)];
@@ -72,7 +80,7 @@ fn seeds(thorough: bool) -> Vec<Seed> {
             V9Set::Data(401, crate::props::c04::body_for(&fb, 1, 3, None)),
             V9Set::Data(400, crate::props::c04::body_for(&fa, 4, 0, None)),
         ]));
-        v.push(Seed { name: "v9-two-templates-three-data-flowsets".into(), needs: vec![], boundaries: v9_boundaries(&p), packet: p });
+        v.push(Seed { name: "v9-two-templates-three-data-flowsets".into(), needs: vec![], boundaries: v9_boundaries(&p), packet: p, only_cuts: None });
     }
     // IPFIX
     let reps = ipfix_reps();
@@ -91,17 +99,17 @@ fn seeds(thorough: bool) -> Vec<Seed> {
             let tp = ipfix_message(&IpfixMsg::new(vec![t.clone()]));
             let dp = ipfix_message(&IpfixMsg::new(vec![d.clone()]));
             let td = ipfix_message(&IpfixMsg::new(vec![t, d]));
-            v.push(Seed { name: format!("ipfix-T-{}-{}", k, j), needs: vec![], boundaries: vec![], packet: tp.clone() });
-            v.push(Seed { name: format!("ipfix-D-{}-{}", k, j), needs: tp, boundaries: vec![], packet: dp });
-            v.push(Seed { name: format!("ipfix-TD-{}-{}", k, j), needs: vec![], boundaries: vec![], packet: td });
+            v.push(Seed { name: format!("ipfix-T-{}-{}", k, j), needs: vec![], boundaries: vec![], packet: tp.clone(), only_cuts: None });
+            v.push(Seed { name: format!("ipfix-D-{}-{}", k, j), needs: tp, boundaries: vec![], packet: dp, only_cuts: None });
+            v.push(Seed { name: format!("ipfix-TD-{}-{}", k, j), needs: vec![], boundaries: vec![], packet: td, only_cuts: None });
         }
     }
     {
         let o = IpfixOptTpl { id: 402, scope_count: 1, fields: vec![fs(149, 4), fs(41, 2), fs(82, 65535)] };
         let body = crate::props::c05::body_for(&o.fields, 2, 0, None);
         let p = ipfix_message(&IpfixMsg::new(vec![IpfixSet::OptTpl(vec![o.clone()], 0), IpfixSet::Data(402, body.clone())]));
-        v.push(Seed { name: "ipfix-options".into(), needs: vec![], boundaries: vec![], packet: p });
-        v.push(Seed { name: "ipfix-header-only".into(), needs: vec![], boundaries: vec![], packet: ipfix_message(&IpfixMsg::new(vec![])) });
+        v.push(Seed { name: "ipfix-options".into(), needs: vec![], boundaries: vec![], packet: p, only_cuts: None });
+        v.push(Seed { name: "ipfix-header-only".into(), needs: vec![], boundaries: vec![], packet: ipfix_message(&IpfixMsg::new(vec![])), only_cuts: None });
         // two template records in one set, an options template, data for each, a long-form variable-length value
         let fa = vec![fs(8, 4), fs(7, 2), fs(4, 1)];
         let fb = vec![fs(27, 16), fs(82, 65535)];
@@ -114,7 +122,7 @@ fn seeds(thorough: bool) -> Vec<Seed> {
             IpfixSet::Data(401, body_b),
             IpfixSet::Data(402, body),
         ]));
-        v.push(Seed { name: "ipfix-two-templates-options-three-data-sets-long-form".into(), needs: vec![], boundaries: vec![], packet: p });
+        v.push(Seed { name: "ipfix-two-templates-options-three-data-sets-long-form".into(), needs: vec![], boundaries: vec![], packet: p, only_cuts: None });
     }
     if thorough {
         // maximal variable packets from the ladder
@@ -125,6 +133,7 @@ fn seeds(thorough: bool) -> Vec<Seed> {
             needs: ipfix_message(&IpfixMsg::new(vec![IpfixSet::Tpl(vec![IpfixTpl { id: 400, fields: f.clone() }], 0)])),
             boundaries: vec![],
             packet: ipfix_message(&IpfixMsg::new(vec![IpfixSet::Data(400, (0..n * 4).map(|j| fill(j / 251, j)).collect())])),
+            only_cuts: None,
         });
     }
     v
@@ -238,6 +247,11 @@ pub fn spaces(tier: &str) -> Vec<Box<dyn Space>> {
             if s.boundaries.contains(&cut) {
                 continue;
             }
+            if let Some((head, tail)) = s.only_cuts {
+                if cut > head && cut + tail < s.packet.len() {
+                    continue;
+                }
+            }
             if s.packet.len() > 4000 {
                 big.push((si as u32, cut as u32));
             } else {
@@ -279,7 +293,7 @@ pub fn run(tier: &str) -> i32 {
         prop: "C14".into(),
         tier: tier.into(),
         level: "fault_enumeration",
-        rule: "every cut point strictly inside every seed packet (V5/V7 with 0,1,2,3,30(,max) records; V9 and IPFIX template, data, template+data packets over pairs of class representatives (quick: two partners per representative, thorough: all pairs), options packets, multi-template multi-data packets with padding and a long-form variable-length value), excluding V9 flowset boundaries, in every context: alone / after a V5 packet / after the template packet it needs in the same buffer / after every sequence of one or two self-delimiting packets of the 17-packet menu; oracle: exactly the context's packets, unchanged, then one error whose remaining bytes are the truncated packet, caches as after the context alone; a case is distinct by (seed, cut, context)".into(),
+        rule: "every cut point strictly inside every seed packet (V5/V7 with 0,1,2,3,30(,max) records and, cut in the header and the last two records only, with the counts at which count x record size passes 65 535; V9 and IPFIX template, data, template+data packets over pairs of class representatives (quick: two partners per representative, thorough: all pairs), options packets, multi-template multi-data packets with padding and a long-form variable-length value), excluding V9 flowset boundaries, in every context: alone / after a V5 packet / after the template packet it needs in the same buffer / after every sequence of one or two self-delimiting packets of the 17-packet menu; oracle: exactly the context's packets, unchanged, then one error whose remaining bytes are the truncated packet, caches as after the context alone; a case is distinct by (seed, cut, context)".into(),
         bounds: json!({"contexts": 3 + 17 + 289, "max_packet": if tier == "thorough" {"datagram limit"} else {"30 records"}}),
         assumptions: vec!["seed validity is checked at run time (the un-truncated packet must decode without error in the same context)".into()],
         trusted_base: vec!["c14::judge".into()],
